@@ -1,6 +1,7 @@
 package rules
 
 import (
+	"go/token"
 	"fmt"
 	"go/ast"
 	"go/types"
@@ -24,7 +25,7 @@ func init() {
 // scopeBalance checks enter/exit pairing in one function body.
 //
 //	isEnter / isExit classify calls; name is used in descriptors.
-func scopeBalance(c *core.Ctx, rel string, fd *ast.FuncDecl, inf *types.Info, isEnter, isExit func(*ast.CallExpr) string) (enters int) {
+func scopeBalance(c *core.Ctx, rel string, fd *ast.FuncDecl, inf *types.Info, isEnter, isExit func(*ast.CallExpr) string, prim ...func(ast.Node) string) (enters int) {
 	fn := core.DeclName(fd)
 	par := core.Parents(fd)
 	sig, _ := inf.Defs[fd.Name].Type().(*types.Signature)
@@ -54,6 +55,25 @@ func scopeBalance(c *core.Ctx, rel string, fd *ast.FuncDecl, inf *types.Info, is
 			if depth >= 10 {
 				base = 10
 				depth -= 10
+			}
+			// the stack written directly (a push or pop helper folded into this function)
+			for _, pf := range prim {
+				switch pf(n) {
+				case "push":
+					seen[key{n, "enter"}] = true
+					if depth >= 1 {
+						bad[key{n, "scope pushed while a scope entered earlier in the same function is still open"}] = true
+					} else {
+						depth++
+					}
+				case "pop":
+					seen[key{n, "exit"}] = true
+					if depth == 0 {
+						bad[key{n, "scope popped without an open scope"}] = true
+					} else {
+						depth--
+					}
+				}
 			}
 			for _, call := range core.CallsIn(n) {
 				if nm := isEnter(call); nm != "" {
@@ -150,17 +170,56 @@ func runR061(c *core.Ctx) {
 		return ""
 	}
 	// anchors must exist
-	mustFunc(c, rel, "(*missingFieldsTracker).enterMapScope")
-	mustFunc(c, rel, "(*missingFieldsTracker).enterArrayScope")
-	mustFunc(c, rel, "(*missingFieldsTracker).exitScope")
+	anchors := map[*types.Func]bool{
+		mustFunc(c, rel, "(*missingFieldsTracker).enterMapScope"):   true,
+		mustFunc(c, rel, "(*missingFieldsTracker).enterArrayScope"): true,
+		mustFunc(c, rel, "(*missingFieldsTracker).exitScope"):       true,
+	}
+	// outside the three anchors, a direct write of the tracker's stack counts like the call it stands for:
+	// t.currentScope = append(t.currentScope, …) pushes, t.currentScope = t.currentScope[:len(t.currentScope)-1] pops
+	tracker, _ := mustObj(c, rel, "missingFieldsTracker").(*types.TypeName)
+	scopePrim := func(n ast.Node) string {
+		as, ok := n.(*ast.AssignStmt)
+		if !ok || len(as.Lhs) != 1 || len(as.Rhs) != 1 {
+			return ""
+		}
+		base, ok := fieldNamed(inf, as.Lhs[0], tracker, "currentScope")
+		if !ok {
+			return ""
+		}
+		switch r := core.Unparen(as.Rhs[0]).(type) {
+		case *ast.CallExpr:
+			if b, isB := core.ObjOf(inf, r.Fun).(*types.Builtin); isB && b.Name() == "append" && len(r.Args) == 2 && !r.Ellipsis.IsValid() {
+				if b2, ok := fieldNamed(inf, r.Args[0], tracker, "currentScope"); ok && core.SameExpr(inf, base, b2) {
+					return "push"
+				}
+			}
+		case *ast.SliceExpr:
+			if b2, ok := fieldNamed(inf, r.X, tracker, "currentScope"); ok && core.SameExpr(inf, base, b2) && r.Low == nil && r.High != nil {
+				if be, ok := core.Unparen(r.High).(*ast.BinaryExpr); ok && be.Op == token.SUB {
+					if cv := core.ConstOf(inf, be.Y); cv != nil && cv.ExactString() == "1" {
+						return "pop"
+					}
+				}
+			}
+		}
+		return ""
+	}
 	funcs := 0
 	for _, fd := range c.M.FuncDecls(rel) {
 		if fd.Body == nil {
 			continue
 		}
 		has := false
+		isAnchor := false
+		if f, _ := inf.Defs[fd.Name].(*types.Func); f != nil && anchors[f] {
+			isAnchor = true
+		}
 		core.WalkNoFuncLit(fd.Body, func(n ast.Node) bool {
 			if call, ok := n.(*ast.CallExpr); ok && (isEnter(call) != "" || isExit(call) != "") {
+				has = true
+			}
+			if !isAnchor && scopePrim(n) != "" {
 				has = true
 			}
 			return true
@@ -182,7 +241,11 @@ func runR061(c *core.Ctx) {
 			continue
 		}
 		funcs++
-		scopeBalance(c, rel, fd, inf, isEnter, isExit)
+		if isAnchor {
+			scopeBalance(c, rel, fd, inf, isEnter, isExit)
+		} else {
+			scopeBalance(c, rel, fd, inf, isEnter, isExit, scopePrim)
+		}
 	}
 	c.Note("%d functions touch the reader scope stack", funcs)
 }
